@@ -66,7 +66,7 @@ var (
 	c16Names   = []string{"a", "b", "c", "d", "e_x"}
 	c16NSNames = []string{"n1", "n2"}
 	c16Keys    = []string{"k0", "k1", "k2", "k3", "k4", "k5", "значение", "k 7", "\xff\x00bin", "K0"}
-	c16Metrics = []string{"m0", "m1", "m2", "n1:m"}
+	c16Metrics = []string{"m0", "m1", "n1:m"}
 	c16Datas   = []string{"{}", `{"v":1}`, `{"v":2,"s":"x y"}`, `{"tags":[{"name":"env"}]}`, `{"v":"é"}`}
 	c16Metas   = []string{"", `{"user":"u1"}`, `{"user":"u2"}`}
 )
@@ -195,25 +195,29 @@ func (r *c16Run) apply(t vpT, op c16Op, inCont bool) string {
 		if inCont && r.dirtyFlood[metric] {
 			return "skip" // the budget of this metric legitimately differs (ResetFlood is not in the binlog)
 		}
-		resp, err := db.GetOrCreateMapping(vpmetaCtx, metric, c16Keys[op.Key%len(c16Keys)])
-		if err != nil {
-			return c16Err(err)
+		res := ""
+		for _, k := range append([]int{op.Key}, op.Keys...) {
+			resp, err := db.GetOrCreateMapping(vpmetaCtx, metric, c16Keys[k%len(c16Keys)])
+			if err != nil {
+				res += c16Err(err) + ";"
+				continue
+			}
+			if c, ok := resp.AsCreated(); ok {
+				r.created++
+				r.mapIDs[c.Id] = true
+				delete(r.dirtyFlood, metric)
+				res += fmt.Sprintf("mapping created %d;", c.Id)
+			} else if g, ok := resp.AsGetMappingResponse(); ok {
+				r.mapIDs[g.Id] = true
+				res += fmt.Sprintf("mapping %d;", g.Id)
+			} else if resp.IsFloodLimitError() {
+				r.floodErrs++
+				res += "flood;"
+			} else {
+				res += fmt.Sprintf("mapping response %+v;", resp)
+			}
 		}
-		if c, ok := resp.AsCreated(); ok {
-			r.created++
-			r.mapIDs[c.Id] = true
-			delete(r.dirtyFlood, metric)
-			return fmt.Sprintf("mapping created %d", c.Id)
-		}
-		if g, ok := resp.AsGetMappingResponse(); ok {
-			r.mapIDs[g.Id] = true
-			return fmt.Sprintf("mapping %d", g.Id)
-		}
-		if resp.IsFloodLimitError() {
-			r.floodErrs++
-			return "flood"
-		}
-		return "mapping response " + resp.String()
+		return res
 	case "put":
 		n := len(op.Keys)
 		if len(op.IDs) < n {
@@ -302,7 +306,6 @@ func c16Prop(t vpT, c c16Case) (nontrivial bool, classes []string) {
 	}()
 
 	snapDir := ""
-	var snapDirty map[string]bool
 	takeSnapshot := func() {
 		snapDir = filepath.Join(root, "snapshot")
 		prim.env.Close(t)
@@ -314,7 +317,7 @@ func c16Prop(t vpT, c c16Case) (nontrivial bool, classes []string) {
 			}
 			path, err := prim.env.db.backup(vpmetaCtx, filepath.Join(root, "backup"))
 			if err != nil {
-				t.Fatalf("backup: %v", err)
+				vpmetaFail(t, "backup: %v", err)
 			}
 			if err := os.Rename(path, filepath.Join(snapDir, "db")); err != nil {
 				t.Fatalf("rename backup: %v", err)
@@ -322,10 +325,6 @@ func c16Prop(t vpT, c c16Case) (nontrivial bool, classes []string) {
 		} else {
 			prim.env.SaveDBFiles(t, snapDir)
 			prim.env.Open(t)
-		}
-		snapDirty = map[string]bool{}
-		for k := range prim.dirtyFlood {
-			snapDirty[k] = true
 		}
 	}
 	for i, op := range c.Ops {
@@ -346,9 +345,6 @@ func c16Prop(t vpT, c c16Case) (nontrivial bool, classes []string) {
 	for k := range prim.dirtyFlood {
 		skip[k] = true
 	}
-	for k := range snapDirty { // a reset that the snapshot has, the binlog has not, and that a later creation overwrote: equal again
-		_ = k
-	}
 
 	a := prim.fork(vpmetaFork(t, prim.env, "restart", filepath.Dir(prim.env.dbPath)))
 	b := prim.fork(vpmetaFork(t, prim.env, "fresh", ""))
@@ -361,7 +357,7 @@ func c16Prop(t vpT, c c16Case) (nontrivial bool, classes []string) {
 	}{{"restart on own db file", a, nil}, {"replay into a fresh db file", b, skip}, {"replay on top of the older snapshot", cc, skip}}
 	for _, x := range runs {
 		if err := x.r.env.TryOpen(); err != nil {
-			t.Fatalf("%s: reopening on the primary's binlog failed: %v", x.name, err)
+			vpmetaFail(t, "%s: reopening on the primary's binlog failed: %v", x.name, err)
 		}
 		got := x.r.snapshot(t)
 		if d := vpmetaDiff(want, got, x.skip); d != "" {
@@ -435,44 +431,77 @@ func c16Prop(t vpT, c c16Case) (nontrivial bool, classes []string) {
 	return nontrivial, classes
 }
 
-func c16GenOp(t *rapid.T, cont bool) c16Op {
+// c16GenState is the little the generator remembers to aim operations at things that exist.
+type c16GenState struct {
+	ents int // create/predef operations so far (upper bound of entities)
+	maps int // upper bound of the highest mapping id
+}
+
+func c16GenOp(t *rapid.T, g *c16GenState, cont bool) c16Op {
 	w := rapid.IntRange(0, 99).Draw(t, "kind")
-	ids := func(label string) []int32 {
-		return rapid.SliceOfN(rapid.Int32Range(1, 12), 1, 4).Draw(t, label)
-	}
-	switch {
-	case w < 22:
-		return c16Op{K: "create", Typ: rapid.IntRange(0, 4).Draw(t, "typ"), Name: rapid.IntRange(0, 4).Draw(t, "name"), NS: rapid.SampledFrom([]int{0, 0, 1, 2}).Draw(t, "ns"),
-			Data: rapid.IntRange(0, 4).Draw(t, "data"), Del: rapid.SampledFrom([]uint32{0, 0, 0, 77}).Draw(t, "del"), Meta: rapid.IntRange(0, 2).Draw(t, "meta")}
-	case w < 52:
-		return c16Op{K: "edit", Ent: rapid.IntRange(0, 7).Draw(t, "ent"), Name: rapid.SampledFrom([]int{0, 0, 1, 2, 3, 4, 5}).Draw(t, "name"), NS: rapid.SampledFrom([]int{0, 0, 1, 2}).Draw(t, "ns"),
-			Data: rapid.IntRange(0, 4).Draw(t, "data"), Ver: rapid.SampledFrom([]int{0, 0, 0, 0, 1, 2}).Draw(t, "ver"), Del: rapid.SampledFrom([]uint32{0, 0, 0, 77}).Draw(t, "del"), Meta: rapid.IntRange(0, 2).Draw(t, "meta")}
-	case w < 58:
-		return c16Op{K: "predef", NegID: rapid.IntRange(0, 3).Draw(t, "neg"), Typ: rapid.IntRange(0, 4).Draw(t, "typ"), Name: rapid.IntRange(0, 4).Draw(t, "name"),
-			Data: rapid.IntRange(0, 4).Draw(t, "data"), Create: rapid.Bool().Draw(t, "create"), Ver: rapid.SampledFrom([]int{0, 0, 0, 1}).Draw(t, "ver"), Meta: rapid.IntRange(0, 2).Draw(t, "meta")}
-	case w < 76:
-		return c16Op{K: "map", Metric: rapid.IntRange(0, 3).Draw(t, "metric"), Key: rapid.IntRange(0, 9).Draw(t, "key")}
-	case w < 82:
-		n := rapid.IntRange(1, 3).Draw(t, "n")
-		return c16Op{K: "put", Keys: rapid.SliceOfN(rapid.IntRange(0, 9), n, n).Draw(t, "keys"), IDs: rapid.SliceOfN(rapid.Int32Range(1, 12), n, n).Draw(t, "ids")}
-	case w < 88:
-		return c16Op{K: "delmap", IDs: ids("ids")}
-	case w < 91:
-		if cont {
-			return c16Op{K: "map", Metric: rapid.IntRange(0, 3).Draw(t, "metric"), Key: rapid.IntRange(0, 9).Draw(t, "key")}
+	mapIDs := func(label string, min, max int) []int32 {
+		hi := int32(g.maps + 2)
+		if hi > 14 {
+			hi = 14
 		}
-		return c16Op{K: "reset", Metric: rapid.IntRange(0, 3).Draw(t, "metric"), Limit: rapid.SampledFrom([]int64{0, -1, 1, 2, 5, 20000}).Draw(t, "limit")}
-	case w < 94:
-		n := rapid.IntRange(0, 3).Draw(t, "n")
-		return c16Op{K: "boot", Keys: rapid.SliceOfN(rapid.IntRange(0, 9), n, n).Draw(t, "keys"), IDs: rapid.SliceOfN(rapid.Int32Range(1, 12), n, n).Draw(t, "ids")}
+		return rapid.SliceOfN(rapid.Int32Range(1, hi), min, max).Draw(t, label)
+	}
+	keys := func(label string, min, max int) []int {
+		return rapid.SliceOfN(rapid.IntRange(0, len(c16Keys)-1), min, max).Draw(t, label)
+	}
+	typ := func() int { return rapid.SampledFrom([]int{0, 0, 0, 1, 2, 2, 3, 4, 4}).Draw(t, "typ") }
+	create := func() c16Op {
+		g.ents++
+		return c16Op{K: "create", Typ: typ(), Name: rapid.IntRange(0, 4).Draw(t, "name"), NS: rapid.SampledFrom([]int{0, 0, 0, 1, 2}).Draw(t, "ns"),
+			Data: rapid.IntRange(0, 4).Draw(t, "data"), Del: rapid.SampledFrom([]uint32{0, 0, 0, 77}).Draw(t, "del"), Meta: rapid.IntRange(0, 2).Draw(t, "meta")}
+	}
+	mapOp := func() c16Op {
+		op := c16Op{K: "map", Metric: rapid.IntRange(0, 2).Draw(t, "metric"), Key: rapid.IntRange(0, len(c16Keys)-1).Draw(t, "key")}
+		if rapid.IntRange(0, 2).Draw(t, "burst") == 0 {
+			op.Keys = keys("more", 1, 4)
+		}
+		g.maps += 1 + len(op.Keys)
+		return op
+	}
+	delOp := func() c16Op { return c16Op{K: "delmap", IDs: mapIDs("ids", 1, 3)} }
+	switch {
+	case w < 16 || g.ents == 0 && w < 40:
+		return create()
+	case w < 41:
+		return c16Op{K: "edit", Ent: rapid.IntRange(0, g.ents).Draw(t, "ent"), Name: rapid.SampledFrom([]int{0, 1, 2, 3, 4, 5}).Draw(t, "name"), NS: rapid.SampledFrom([]int{0, 0, 0, 0, 1, 2}).Draw(t, "ns"),
+			Data: rapid.IntRange(0, 4).Draw(t, "data"), Ver: rapid.SampledFrom([]int{0, 0, 0, 0, 0, 0, 1, 2}).Draw(t, "ver"), Del: rapid.SampledFrom([]uint32{0, 0, 0, 77}).Draw(t, "del"), Meta: rapid.IntRange(0, 2).Draw(t, "meta")}
+	case w < 45:
+		g.ents++
+		return c16Op{K: "predef", NegID: rapid.IntRange(0, 3).Draw(t, "neg"), Typ: typ(), Name: rapid.IntRange(0, 4).Draw(t, "name"),
+			Data: rapid.IntRange(0, 4).Draw(t, "data"), Create: rapid.Bool().Draw(t, "create"), Ver: rapid.SampledFrom([]int{0, 0, 0, 1}).Draw(t, "ver"), Meta: rapid.IntRange(0, 2).Draw(t, "meta")}
+	case w < 66:
+		return mapOp()
+	case w < 74:
+		ids := mapIDs("ids", 1, 3)
+		for _, id := range ids {
+			if int(id) > g.maps {
+				g.maps = int(id)
+			}
+		}
+		return c16Op{K: "put", Keys: keys("keys", len(ids), len(ids)), IDs: ids}
+	case w < 86:
+		return delOp()
+	case w < 90:
+		if cont {
+			return mapOp()
+		}
+		return c16Op{K: "reset", Metric: rapid.IntRange(0, 2).Draw(t, "metric"), Limit: rapid.SampledFrom([]int64{0, -1, 1, 2, 5, 20000}).Draw(t, "limit")}
+	case w < 93:
+		ids := mapIDs("ids", 0, 3)
+		return c16Op{K: "boot", Keys: keys("keys", len(ids), len(ids)), IDs: ids}
 	case w < 97:
 		if cont {
-			return c16Op{K: "delmap", IDs: ids("ids")}
+			return delOp()
 		}
 		return c16Op{K: "clock", Dt: rapid.SampledFrom([]int64{1, 5, 10, 30, 100}).Draw(t, "dt")}
 	default:
 		if cont {
-			return c16Op{K: "create", Typ: rapid.IntRange(0, 4).Draw(t, "typ"), Name: rapid.IntRange(0, 4).Draw(t, "name")}
+			return create()
 		}
 		return c16Op{K: "reopen"}
 	}
@@ -481,22 +510,23 @@ func c16GenOp(t *rapid.T, cont bool) c16Op {
 func c16Gen() *rapid.Generator[c16Case] {
 	return rapid.Custom(func(t *rapid.T) c16Case {
 		c := c16Case{
-			MaxBudget: rapid.Int64Range(1, 4).Draw(t, "max_budget"),
+			MaxBudget: rapid.Int64Range(1, 3).Draw(t, "max_budget"),
 			Bonus:     rapid.Int64Range(0, 2).Draw(t, "bonus"),
 			Step:      rapid.SampledFrom([]uint32{10, 60}).Draw(t, "step"),
-			Global:    rapid.Int64Range(0, 6).Draw(t, "global"),
-			Chunk:     rapid.SampledFrom([]uint32{0, 0, 0, 600}).Draw(t, "chunk"),
+			Global:    rapid.Int64Range(0, 4).Draw(t, "global"),
+			Chunk:     rapid.SampledFrom([]uint32{0, 0, 0, 300}).Draw(t, "chunk"),
 			T0:        rapid.Int64Range(1_700_000_000, 1_700_000_100).Draw(t, "t0"),
 			SnapMode:  rapid.SampledFrom([]int{0, 0, 1}).Draw(t, "snap_mode"),
 		}
-		n := rapid.IntRange(1, 14).Draw(t, "n")
+		g := &c16GenState{}
+		n := rapid.IntRange(2, 16).Draw(t, "n")
 		for i := 0; i < n; i++ {
-			c.Ops = append(c.Ops, c16GenOp(t, false))
+			c.Ops = append(c.Ops, c16GenOp(t, g, false))
 		}
 		c.SnapAt = rapid.IntRange(0, n).Draw(t, "snap_at")
 		m := rapid.IntRange(0, 4).Draw(t, "cont_n")
 		for i := 0; i < m; i++ {
-			c.Cont = append(c.Cont, c16GenOp(t, true))
+			c.Cont = append(c.Cont, c16GenOp(t, g, true))
 		}
 		return c
 	})
